@@ -263,6 +263,9 @@ class CFG:
             return outs
         if k == 'NullStmt':
             return outs
+        if k == 'DeclStmt' and s.kids and all(
+                c is not None and c.kind == 'VarDecl' and (c.x or {}).get('cond_alias') for c in s.kids):
+            return outs      # a named test the IR has put back into the condition it stood for
         if k == 'IfStmt':
             kids = list(s.kids)
             x = s.x or {}
